@@ -182,6 +182,7 @@ def kindEq : TStep → TStep → Bool
   | .uint a, .uint b => a == b
   | .uint a, .uintAlg => a == 8
   | .uint a, .uintLax b => a == b
+  | .mnem t a, .mnem u b => t == u && a == b
   | .uint a, .uintTtl _ => a == 32
   | .name, .name => true
   | .endStr false, .tokStr => true
@@ -216,6 +217,7 @@ def FieldWF : TStep → TVal → Prop
   | .uint bits, .n v => v < 2 ^ bits
   | .uintAlg, .n v => v < 2 ^ 8
   | .uintLax bits, .n v => v < 2 ^ bits
+  | .mnem _ bits, .n v => v < 2 ^ bits
   | .uintTtl _, .n v => v < 2 ^ 32
   | .name, .s t => ∃ ls, WireNameOK ls ∧ t = presentOf ls
   | .tokStr, .s t => RestWF' t
@@ -249,6 +251,61 @@ theorem normRest_word (up : Bool) (t : Bytes) (h : RestWF t) : Word (normRest up
       exact upper_plain b (hpl b hb)
     exact ⟨hne', plain_wordOK _ hpl' hne'⟩
 
+/-! ### codes with mnemonics (CERT) -/
+
+/-- every mnemonic of the table is found under its own spelling with its own code, is one plain word, and is not a number -/
+def mnemOK (t : Nat) : Bool :=
+  (mnemTable t).all (fun p => (lookup (mnemTable t) (ascii p.1) == some p.2) && decide (ascii p.1 ≠ []) && wordOK (ascii p.1) &&
+    !((ascii p.1).all isDig))
+
+theorem mnemOK_all (t : Nat) : mnemOK t = true := by
+  cases t with
+  | zero => decide +kernel
+  | succ n => exact (by decide +kernel : mnemOK 1 = true)
+
+theorem lookup_none_digits (tbl : List (String × Nat)) (ds : Bytes) (hall : tbl.all (fun p => !((ascii p.1).all isDig)) = true)
+    (hd : ds.all isDig = true) : lookup tbl ds = none := by
+  unfold lookup
+  rw [Option.map_eq_none_iff, List.find?_eq_none]
+  intro p hp
+  rw [List.all_eq_true] at hall
+  have := hall p hp
+  simp only [beq_iff_eq]
+  intro e
+  rw [e, hd] at this
+  exact absurd this (by decide)
+
+/-- **mnem_roundtrip**: the mnemonic printed for a code of the table is read back as that code, and a code without a
+    mnemonic is printed as a number that is no mnemonic and is read back as a number -/
+theorem mnem_roundtrip (t bits v : Nat) (hv : v < 2 ^ bits) :
+    Word (printMnem t v) ∧
+      (lookup (mnemTable t) (printMnem t v) = some v ∨
+        (lookup (mnemTable t) (printMnem t v) = none ∧ parseUintN bits (printMnem t v) = some v)) := by
+  have hok := mnemOK_all t
+  unfold mnemOK at hok
+  rw [List.all_eq_true] at hok
+  unfold printMnem
+  cases hf : (mnemTable t).find? (fun p => p.2 == v) with
+  | some p =>
+    have hm := List.mem_of_find?_eq_some hf
+    have hp := List.find?_some hf
+    simp only [beq_iff_eq] at hp
+    have h := hok p hm
+    simp only [Bool.and_eq_true, beq_iff_eq, decide_eq_true_eq, Bool.not_eq_true'] at h
+    obtain ⟨⟨⟨h1, h2⟩, h3⟩, _⟩ := h
+    exact ⟨⟨h2, h3⟩, Or.inl (by rw [h1, hp])⟩
+  | none =>
+    obtain ⟨hd, hval⟩ := itoa_spec v
+    refine ⟨digits_word _ hd, Or.inr ⟨?_, ?_⟩⟩
+    · apply lookup_none_digits _ _ _ hd.2
+      rw [List.all_eq_true]
+      intro p hp
+      have h := hok p hp
+      simp only [Bool.and_eq_true, Bool.not_eq_true'] at h
+      simp [h.2]
+    · have := parseUintN_digits bits (itoa v) hd (by rw [hval]; exact hv)
+      rw [this, hval]
+
 /-- the word a single-token field is printed as, and that the parser reads it back -/
 theorem field_word (p q : TStep) (v : TVal) (hk : kindEq p q = true) (hw : FieldWF q v) (origin : Bytes) :
     ∃ w, (∀ vs, printStep p (v :: vs) = some (w, vs)) ∧ Word w ∧
@@ -271,6 +328,17 @@ theorem field_word (p q : TStep) (v : TVal) (hk : kindEq p q = true) (hw : Field
     refine ⟨itoa n, fun vs => rfl, digits_word _ hd, ?_⟩
     intro t ts Q acc ht he _hval
     simp only [parsePlan, headTok, ht, parseUintN_digits bits (itoa n) hd (by rw [hv]; exact hw), hv, List.tail_cons]
+  case mnem.mnem t1 b1 t2 b2 =>
+    cases v <;> simp only [FieldWF] at hw
+    rename_i n
+    simp only [Bool.and_eq_true, beq_iff_eq] at hk
+    obtain ⟨rfl, rfl⟩ := hk
+    obtain ⟨hword, hrt⟩ := mnem_roundtrip t1 b1 n hw
+    refine ⟨printMnem t1 n, fun vs => rfl, hword, ?_⟩
+    intro t ts Q acc ht he _hval
+    rcases hrt with h | ⟨h1, h2⟩
+    · simp only [parsePlan, headTok, ht, h, List.tail_cons]
+    · simp only [parsePlan, headTok, ht, h1, h2, List.tail_cons]
   case uint.uintAlg b1 =>
     cases v <;> simp only [FieldWF] at hw
     rename_i n
